@@ -1,6 +1,7 @@
 import Batteries.Tactic.Alias
 import GenlmModel.Proofs.Star
 import GenlmModel.Proofs.Wfsa
+import GenlmModel.Proofs.LimWfsa
 /-! # C12 — rational operations implement the algebra of weighted languages
 Exact-length path identities, every commutative semiring, operands with ε arcs and several
 initial/final states. -/
@@ -18,4 +19,15 @@ alias star_is_one_plus_plus := Genlm.star_Pk
 alias concat_limit := Genlm.concat_PN_limit
 alias plus_limit := Genlm.kleenePlus_PN_limit
 alias star_limit := Genlm.star_PN_limit
+
+/-! ## at the limit (ℝ≥0∞): exact identities between the full path sums `PL` (operands with ε cycles included) -/
+alias union_limit_exact := Genlm.union_PL
+alias concat_limit_exact := Genlm.concat_PL
+alias reverse_limit_exact := Genlm.reverse_PL
+alias renaming_limit_exact := Genlm.mapStates_PL
+/-- plus(A)(x) = Σ over all factorisations of x into ≥ 1 factors of the product of A on the factors -/
+alias plus_is_sum_over_factorisations := Genlm.kleenePlus_PL_series
+/-- star(A)(x) = [x = ε] + plus(A)(x), and star = 1 + A·star -/
+alias star_is_sum_over_factorisations := Genlm.star_PL_series
+alias star_unfold_limit := Genlm.star_PL_unfold
 end Genlm.Props.C12
